@@ -35,7 +35,11 @@ type propSpec struct {
 var props = map[string]propSpec{
 	"C03": {"C03", []string{"empty"}, "", nil},
 	"C04": {"C04", []string{"empty"}, "", nil},
-	"C07": {"C07", []string{"empty"}, "", nil},
+	"C05": {"C05", []string{"reset"}, "", nil},
+	"C06": {"C06", []string{"badfrom", "badto"}, "", nil},
+	"C07": {"C07", []string{"empty", "reset"}, "", nil},
+	"C08": {"C08", []string{"echo"}, "", nil},
+	"C09": {"C09", []string{"refresh"}, "", nil},
 	"C20": {"C20", []string{"empty"}, "", nil},
 }
 
